@@ -110,10 +110,99 @@ func matchTok(d []byte, i int, ts TokSpec) (int, bool) {
 	case 3:
 		l := ModelInteger(d, i)
 		return l.End, l.Match
+	case 5:
+		e := i
+		for e < len(d) && d[e] == 'b' {
+			e++
+		}
+		return e, e > i
+	case 6:
+		if e, ok := ModelPrefix(d, i, "ab"); ok {
+			return e, true // the longest reading; matchTokAll gives both
+		}
+		return ModelPrefix(d, i, "a")
 	default:
 		l := ModelString(d, i, false)
 		return l.End, l.Match && !l.Lenient
 	}
+}
+
+// matchTokAll: every end a token parser can return at i (only kind 6 has more than one).
+func matchTokAll(d []byte, i int, ts TokSpec) []int {
+	if ts.Kind == 6 {
+		var out []int
+		if e, ok := ModelPrefix(d, i, "a"); ok {
+			out = append(out, e)
+		}
+		if e, ok := ModelPrefix(d, i, "ab"); ok {
+			out = append(out, e)
+		}
+		return out
+	}
+	if e, ok := matchTok(d, i, ts); ok {
+		return []int{e}
+	}
+	return nil
+}
+
+func hasAmbiguousTok(toks []TokSpec) bool {
+	for _, t := range toks {
+		if t.Kind == 6 {
+			return true
+		}
+	}
+	return false
+}
+
+// modelC10Paths is the model for sequences with an ambiguous token: every reading is followed;
+// a reading dies on a token mismatch or a violated mode. It reports whether some reading reaches
+// the end of input and, when exactly one does, that reading's token spans.
+func modelC10Paths(d []byte, toks []TokSpec) (accept bool, spans [][2]int) {
+	type path struct {
+		cur   int
+		spans [][2]int
+	}
+	paths := []path{{0, nil}}
+	for _, ts := range toks {
+		left, right := ts.Left, ts.Right
+		if ts.UseTrim {
+			left, right = 2, 2
+		}
+		var next []path
+		for _, p := range paths {
+			cur := p.cur
+			if left >= 0 {
+				e, ok, _, _ := judgeRun(d, cur, left)
+				if !ok {
+					continue
+				}
+				cur = e
+			}
+			for _, end := range matchTokAll(d, cur, ts) {
+				sp := [2]int{cur, end}
+				c2 := end
+				if right >= 0 {
+					e, ok, _, _ := judgeRun(d, c2, right)
+					if !ok {
+						continue
+					}
+					c2, sp[1] = e, e
+				}
+				next = append(next, path{c2, append(append([][2]int{}, p.spans...), sp)})
+			}
+		}
+		paths = next
+	}
+	var done []path
+	for _, p := range paths {
+		if p.cur == len(d) {
+			done = append(done, p)
+		}
+	}
+	if len(done) == 1 {
+		return true, done[0].spans
+	}
+	return len(done) > 0, nil
 }
 
 func tokParser(ts TokSpec) parsley.Parser {
@@ -127,6 +216,10 @@ func tokParser(ts TokSpec) parsley.Parser {
 		p = terminal.Word("w", "let", "let")
 	case 3:
 		p = terminal.Integer("i")
+	case 5:
+		p = combinator.Many1(terminal.Op("b"))
+	case 6:
+		p = combinator.Any(terminal.Op("a"), terminal.Op("ab"))
 	default:
 		p = terminal.String("s", false)
 	}
@@ -216,7 +309,13 @@ func tokenValues(node parsley.Node) ([]string, []parsley.Node) {
 	seq := node.(*ast.NonTerminalNode).Children()[0].(*ast.NonTerminalNode).Children()
 	var out []string
 	for _, ch := range seq {
-		out = append(out, fmt.Sprintf("%s=%#v", ch.Token(), ch.(parsley.LiteralNode).Value()))
+		if ln, ok := ch.(parsley.LiteralNode); ok {
+			out = append(out, fmt.Sprintf("%s=%#v", ch.Token(), ln.Value()))
+		} else if nt, ok := ch.(parsley.NonTerminalNode); ok {
+			out = append(out, fmt.Sprintf("%s[%d]", ch.Token(), len(nt.Children())))
+		} else {
+			out = append(out, ch.Token())
+		}
 	}
 	return out, seq
 }
@@ -233,6 +332,11 @@ func checkC10(ci interface{}, st *Stats) error {
 	}
 	src := c.source()
 	d := normCRLF([]byte(src))
+	for _, t := range c.Toks {
+		if t.Kind == 6 && t.Right >= 0 && t.Right != 2 {
+			return Discard{"a mode that can fail on the right of a two-result token (RightTrim keeps only the last reading's verdict: outside the property)"}
+		}
+	}
 	m := modelC10(d, c.Toks)
 	node, err, perr := parseC10(src, c.Toks)
 	if perr != nil {
@@ -240,6 +344,28 @@ func checkC10(ci interface{}, st *Stats) error {
 	}
 	if (node == nil) == (err == nil) {
 		return fmt.Errorf("Parse returned node=%v error=%v", node, err)
+	}
+	if hasAmbiguousTok(c.Toks) {
+		st.Class("sequence with a two-result token (all readings followed)")
+		accept, spans := modelC10Paths(d, c.Toks)
+		if accept != (err == nil) {
+			return fmt.Errorf("with a two-result token: accepted=%v, but some reading reaches the end of input with every mode satisfied: %v (error %v)", err == nil, accept, err)
+		}
+		if accept {
+			st.NonTrivial()
+			if spans != nil {
+				_, seq := tokenValues(node)
+				if len(seq) != len(spans) {
+					return fmt.Errorf("parsed %d tokens, want %d", len(seq), len(spans))
+				}
+				for i, ch := range seq {
+					if int(ch.Pos())-1 != spans[i][0] || int(ch.ReaderPos())-1 != spans[i][1] {
+						return fmt.Errorf("token %d spans %d..%d, the only reading that reaches the end of input has %d..%d", i, int(ch.Pos())-1, int(ch.ReaderPos())-1, spans[i][0], spans[i][1])
+					}
+				}
+			}
+		}
+		return nil
 	}
 	nonEmptyGap, otherMode := false, false
 	for _, g := range c.Gaps {
@@ -294,8 +420,8 @@ func checkC10(ci interface{}, st *Stats) error {
 		keep := false
 		if i > 0 && i < len(c.Toks) {
 			a, b := c.Toks[i-1], c.Toks[i]
-			if (a.Kind == 2 || a.Kind == 3) && (b.Kind == 2 || b.Kind == 3) {
-				keep = true // word/number neighbours would merge
+			if (a.Kind == 2 || a.Kind == 3) && (b.Kind == 2 || b.Kind == 3) || a.Kind == 5 && b.Kind == 5 {
+				keep = true // word/number neighbours (and two b-runs) would merge
 			}
 			if a.Right == 3 || b.Left == 3 {
 				keep = true // a forced line break is not removable
@@ -337,7 +463,7 @@ func genC10(t *rapid.T) interface{} {
 	mode := func(label string) int { return rapid.SampledFrom([]int{0, 1, 1, 2, 2, 2, 3}).Draw(t, label) }
 	for i := 0; i < n; i++ {
 		ts := TokSpec{Left: -1, Right: -1}
-		ts.Kind = rapid.IntRange(0, 4).Draw(t, "kind")
+		ts.Kind = rapid.SampledFrom([]int{0, 1, 2, 3, 4, 0, 1, 2, 3, 4, 5, 5, 6}).Draw(t, "kind")
 		switch ts.Kind {
 		case 0:
 			ts.Text = "("
@@ -349,6 +475,10 @@ func genC10(t *rapid.T) interface{} {
 			ts.Text = fmt.Sprint(rapid.IntRange(0, 99).Draw(t, "int"))
 		case 4:
 			ts.Text = rapid.SampledFrom([]string{`"s"`, `""`, `"a b"`, `"\n"`}).Draw(t, "str")
+		case 5:
+			ts.Text = rapid.SampledFrom([]string{"b", "bb", "bbb"}).Draw(t, "bs")
+		case 6:
+			ts.Text = rapid.SampledFrom([]string{"a", "ab", "ab"}).Draw(t, "amb")
 		}
 		switch rapid.IntRange(0, 4).Draw(t, "trimkind") {
 		case 0:
@@ -359,6 +489,9 @@ func genC10(t *rapid.T) interface{} {
 			ts.Left, ts.Right = mode("lm"), mode("rm")
 		case 3:
 			ts.UseTrim = true
+		}
+		if ts.Kind == 6 && ts.Right >= 0 {
+			ts.Right = 2
 		}
 		c.Toks = append(c.Toks, ts)
 	}
@@ -379,7 +512,7 @@ func genC10(t *rapid.T) interface{} {
 		}
 		if g == "" && i > 0 && i < n {
 			a, b := c.Toks[i-1], c.Toks[i]
-			if (a.Kind == 2 || a.Kind == 3) && (b.Kind == 2 || b.Kind == 3) {
+			if (a.Kind == 2 || a.Kind == 3) && (b.Kind == 2 || b.Kind == 3) || a.Kind == 5 && b.Kind == 5 {
 				g = " " // neighbours that would merge into one token
 			}
 		}
